@@ -323,7 +323,53 @@ func (c *ServeCase) coq() string {
 		}
 		ob = fmt.Sprintf("(OResp %s %s %s %s %s)", hx.Z(int64(c.Obs.Status)), hx.List(hs), hx.BB(c.Obs.Body), c.Obs.Doc.coq(), hx.List(evs))
 	}
+	if rs := c.streams(); rs != nil {
+		// a reader that failed part-way or whose Close failed: the trace carries what it delivered,
+		// the extra list what it had promised beyond that and the errors
+		return fmt.Sprintf("(CStream %s %s %s %s %s %s)", co, rq, hx.B(digestOf(r.Body)), subjectCoq(r.Body), ob, hx.List(rs))
+	}
 	return fmt.Sprintf("(CServe %s %s %s %s %s)", co, rq, hx.B(digestOf(r.Body)), subjectCoq(r.Body), ob)
+}
+
+// streams: one rstream per reader the backend handed out, in order; nil when every reader was
+// the plain one (delivers its content, io.EOF, Close succeeds).
+func (c *ServeCase) streams() []string {
+	var rs []string
+	any := false
+	for _, e := range c.Obs.Trace {
+		if e.Kind == "call" && e.Res.Kind == "read" {
+			rs = append(rs, e.Res.rstream())
+			any = any || e.Res.streamed()
+		}
+	}
+	if !any {
+		return nil
+	}
+	return rs
+}
+
+// streamKind names how the readers of the exchange misbehaved (for the distribution).
+func (c *ServeCase) streamKind() string {
+	k := ""
+	for _, e := range c.Obs.Trace {
+		if e.Kind != "call" || e.Res.Kind != "read" {
+			continue
+		}
+		if f := e.Res.Fail; f != nil {
+			switch n := len(e.Res.Data); {
+			case f.At >= n:
+				k += "+read-fails-at-end"
+			case f.At <= 0:
+				k += "+read-fails-at-0"
+			default:
+				k += "+read-fails-inside"
+			}
+		}
+		if e.Res.CloseErr != nil {
+			k += "+close-fails"
+		}
+	}
+	return k
 }
 
 func illScript(c *ServeCase) bool {
@@ -333,6 +379,9 @@ func illScript(c *ServeCase) bool {
 		}
 		r := e.Res
 		if r.Err != nil && r.Err.illBehaved() || r.IterErr != nil && r.IterErr.illBehaved() {
+			return true
+		}
+		if r.Fail != nil && r.Fail.Err.illBehaved() || r.CloseErr != nil && r.CloseErr.illBehaved() {
 			return true
 		}
 		if e.Op == "WID" && (r.Str == "" || !validUTF8(r.Str)) {
@@ -356,6 +405,9 @@ func (c *ServeCase) class() string {
 		if e.Kind == "call" && !strings.HasPrefix(e.Op, "W") {
 			op = e.Op
 		}
+	}
+	if c.streams() != nil {
+		return fmt.Sprintf("%s/%d/stream", op, c.Obs.Status)
 	}
 	return fmt.Sprintf("%s/%d", op, c.Obs.Status)
 }
@@ -462,6 +514,9 @@ func main() {
 			}
 			if c.Req.Raw != nil {
 				out.Count("serve:via-http.ReadRequest")
+			}
+			if k := c.streamKind(); k != "" {
+				out.Count("serve:stream:" + k[1:])
 			}
 			out.Count(fmt.Sprintf("serve:backend-calls:%d", len(c.Script)))
 		}
@@ -761,6 +816,12 @@ func generate(cfg *hx.Config, rnd *rand.Rand,
 			addServe(c, &source{replay: script}, "boundary-grid")
 		}
 	}
+	// 1c. every route that streams a backend reader (blob GET, ranged blob GET, both again after the
+	// ResolveBlob / LocationsForDescriptor prelude, manifest GET by tag and by digest) against a reader
+	// whose Read fails after k bytes, k = 0, 1, the middle, one short, all of them (an error in place
+	// of io.EOF), with each shape of error, the error on its own or together with the last bytes;
+	// and against a reader whose Close fails
+	streamGrid(blob20, addServe)
 	for _, cr := range contentRanges {
 		for _, body := range [][]byte{nil, []byte("x"), []byte("hello")} {
 			for _, clen := range []int64{int64(len(body)), -1} {
@@ -966,5 +1027,72 @@ func generate(cfg *hx.Config, rnd *rand.Rand,
 	for i := 0; i < 200; i++ {
 		a, b := int64(rnd.Intn(1000)), int64(rnd.Intn(1000))
 		addRange(ociverif.RangeString(a, b))
+	}
+}
+
+// streamGrid: see 1c in generate.
+func streamGrid(blob []byte, addServe func(*ServeCase, *source, string)) {
+	dg := digestOf(blob)
+	errs := []*ErrSpec{
+		{Kind: "plain", Msg: "connection reset while reading"},
+		{Kind: "std", Std: "BlobUnknown"},
+		{Kind: "std", Std: "ManifestUnknown"},
+		{Kind: "wire", Code: "MY_CUSTOM_CODE", Msg: "late"},
+		{Kind: "wrap", Prefix: "digest mismatch: ", Inner: &ErrSpec{Kind: "std", Std: "DigestInvalid"}},
+		{Kind: "http", Status: 503, Inner: &ErrSpec{Kind: "plain", Msg: "upstream gone"}},
+		{Kind: "http", Status: 200, Inner: &ErrSpec{Kind: "wire", Code: "X", Msg: "odd"}},
+	}
+	type route struct {
+		path, rng string
+		opts      OptSpec
+		media     string
+		lo, hi    int // the part of the blob the reader carries
+	}
+	mt := "application/vnd.oci.image.manifest.v1+json"
+	routes := []route{
+		{"/v2/foo/blobs/" + dg, "", OptSpec{}, "application/octet-stream", 0, len(blob)},
+		{"/v2/foo/blobs/" + dg, "", OptSpec{Locs: &LocsSpec{Locs: []string{}}}, "application/octet-stream", 0, len(blob)},
+		{"/v2/foo/blobs/" + dg, "bytes=2-9", OptSpec{}, "application/octet-stream", 2, 10},
+		{"/v2/foo/blobs/" + dg, "bytes=5-", OptSpec{Locs: &LocsSpec{Locs: []string{}}}, "", 5, len(blob)},
+		{"/v2/foo/blobs/" + dg, "bytes=0-0", OptSpec{}, "application/json", 0, 1},
+		{"/v2/foo/manifests/latest", "", OptSpec{}, mt, 0, len(blob)},
+		{"/v2/foo/manifests/latest", "", OptSpec{OmitDigest: true}, "application/json", 0, len(blob)},
+		{"/v2/foo/manifests/" + dg, "", OptSpec{}, mt, 0, len(blob)},
+		{"/v2/foo/manifests/" + dg, "", OptSpec{OmitDigest: true, WrapWriteError: true}, "", 0, len(blob)},
+	}
+	for ri, rt := range routes {
+		data := blob[rt.lo:rt.hi]
+		d := DescSpec{Media: rt.media, Digest: dg, Size: int64(len(blob))}
+		run := func(r ResSpec) {
+			c := &ServeCase{Req: ReqSpec{Method: "GET", Path: rt.path, Range: rt.rng}, Opts: rt.opts}
+			r.Kind, r.Desc, r.Data = "read", &d, data
+			script := []ResSpec{r}
+			if rt.opts.Locs != nil {
+				script = append([]ResSpec{{Kind: "desc", Desc: &d}}, script...)
+			}
+			addServe(c, &source{replay: script}, "stream-grid")
+		}
+		ats := []int{0, 1, len(data) / 2, len(data) - 1, len(data)}
+		for ei, e := range errs {
+			for ai, at := range ats {
+				if ai > 0 && at <= ats[ai-1] {
+					continue
+				}
+				run(ResSpec{Fail: &ReadFail{At: at, Err: e}})
+				if at > 0 && (ei+ai+ri)%2 == 0 {
+					run(ResSpec{Fail: &ReadFail{At: at, Err: e, Tail: true}, Chunk: 1 + (ei+ai)%4})
+				}
+			}
+			run(ResSpec{CloseErr: e})
+			run(ResSpec{Fail: &ReadFail{At: len(data) / 2, Err: errs[(ei+1)%len(errs)]}, CloseErr: e, Chunk: 3})
+		}
+	}
+	// an empty blob whose reader fails at once
+	d0 := DescSpec{Media: "application/octet-stream", Digest: digestOf(nil), Size: 0}
+	for _, e := range errs {
+		for _, path := range []string{"/v2/foo/blobs/" + digestOf(nil), "/v2/foo/manifests/v1", "/v2/foo/manifests/" + digestOf(nil)} {
+			c := &ServeCase{Req: ReqSpec{Method: "GET", Path: path}}
+			addServe(c, &source{replay: []ResSpec{{Kind: "read", Desc: &d0, Fail: &ReadFail{At: 0, Err: e}}}}, "stream-grid")
+		}
 	}
 }
